@@ -424,11 +424,15 @@ def run_harness(ctx, pkg, test, ops, timeout=900, extra_env=None, race=False, ta
                 time.sleep(3 + 4 * attempt)
                 continue
             break
-    if rc != 0 and "panic: Log in goroutine after Test" in log and re.search(r"(?m)^PASS$", log):
+    if rc != 0 and "panic: Log in goroutine after Test" in log and "--- FAIL" not in log and (
+            re.search(r"(?m)^PASS$", log) or (os.path.exists(out_path) and
+                                              len(open(out_path).read().splitlines()) >= len(ops))):
         # the test function finished and passed; afterwards one of keymasterd's own background goroutines
         # (BackgroundDBCopy, started by initDB) logged through the testing.T-bound logger, which the testing package
         # turns into a panic of the test BINARY. A teardown artefact of the harness, not a behaviour of the code
-        # under test: every op line was answered before it. (First seen 2026-09-30 under heavy machine load.)
+        # under test: every op line was answered before it (the panic can also land between the end of the test
+        # function and the PASS line: then the answered-lines count decides). The harness now starts that goroutine
+        # with a logger that is not bound to testing.T (vfNewState), so this is a second line of defence.
         ctx.notes.append("harness %s/%s: late log line of a background goroutine after the test had passed (ignored)" % (pkg, test))
         rc = 0
     lines = []
